@@ -43,6 +43,7 @@ func StartWatchdog(cpuBudget float64, heapBudget uint64) {
 			p := progress.Load()
 			if p != last {
 				last, cpu0, heap0, t0 = p, cpuSeconds(), heapBytes(), time.Now()
+				heapHist = heapHist[:0]
 				continue
 			}
 			used := cpuSeconds() - cpu0
@@ -51,8 +52,8 @@ func StartWatchdog(cpuBudget float64, heapBudget uint64) {
 			hang := false
 			if used > cpuBudget {
 				why = fmt.Sprintf("step used %.1fs of CPU without reaching quiescence", used)
-			} else if h > heap0 && h-heap0 > heapBudget {
-				why = fmt.Sprintf("heap grew by %d MiB within one step without further input", (h-heap0)>>20)
+			} else if h > heap0 && h-heap0 > heapBudget && stillGrowing(h) {
+				why = fmt.Sprintf("heap grew by more than %d MiB within one step and is still growing without further input", heapBudget>>20)
 			} else if time.Since(t0) > HangBudget && used < 2 {
 				why = fmt.Sprintf("HANG: no progress for %v with an idle CPU: some goroutine is blocked where quiescence cannot be reached (lock held by a parked goroutine, or kernel I/O)", HangBudget)
 				hang = true
@@ -78,6 +79,19 @@ func StartWatchdog(cpuBudget float64, heapBudget uint64) {
 			syscall.Exit(97)
 		}
 	}()
+}
+
+// stillGrowing keeps the last few heap samples (one per 100 ms poll) and
+// reports whether the heap grew by more than 32 MiB over the last half second:
+// a single large allocation that then stays flat is not "growth that continues".
+var heapHist []uint64
+
+func stillGrowing(h uint64) bool {
+	heapHist = append(heapHist, h)
+	if len(heapHist) > 6 {
+		heapHist = heapHist[len(heapHist)-6:]
+	}
+	return len(heapHist) == 6 && h > heapHist[0] && h-heapHist[0] > 32<<20
 }
 
 func heapBytes() uint64 {
